@@ -11,6 +11,7 @@ Lemma st_ext (a b : st) :
   s_open a = s_open b -> s_files a = s_files b -> s_bits a = s_bits b -> s_ranges a = s_ranges b ->
   s_pos a = s_pos b -> s_out a = s_out b -> s_hq a = s_hq b -> s_nodes a = s_nodes b ->
   s_delay a = s_delay b -> s_errno a = s_errno b -> s_storerr a = s_storerr b -> s_ierr a = s_ierr b ->
+  s_mem a = s_mem b ->
   a = b.
 Proof. destruct a, b; simpl; intros; subst; reflexivity. Qed.
 
@@ -79,7 +80,7 @@ Lemma chunk_get_free s p blk :
   chunk_get pl s p blk =
   match map_windows (piece_windows pl (s_files s) p) (s_files s) [] with
   | (fs', MapOk b) =>
-      (set_nodes (set_files s fs') (upd (s_nodes s) p (mkN (Some b) 1 (if blk then 1 else 0))), MapOk b)
+      (set_mem (set_nodes (set_files s fs') (upd (s_nodes s) p (mkN (Some b) 1 (if blk then 1 else 0)))) (S (s_mem s)), MapOk b)
   | (fs', MapErr e) => (set_files s fs', MapErr e)
   end.
 Proof.
@@ -95,7 +96,8 @@ Proof. intros Hn. unfold chunk_get. rewrite Hn. reflexivity. Qed.
 Lemma chunk_release_ok s p blk b r k :
   nth_error (s_nodes s) p = Some (mkN (Some b) (S r) k) -> (blk = true -> k <> 0) ->
   chunk_release s p blk =
-  set_nodes s (upd (s_nodes s) p (mkN (if Nat.eqb r 0 then None else Some b) r (if blk then pred k else k))).
+  set_mem (set_nodes s (upd (s_nodes s) p (mkN (if Nat.eqb r 0 then None else Some b) r (if blk then pred k else k))))
+          (if Nat.eqb r 0 then pred (s_mem s) else s_mem s).
 Proof.
   intros Hn Hk. unfold chunk_release. rewrite Hn. simpl.
   destruct blk; simpl; [|reflexivity].
@@ -250,6 +252,13 @@ Proof.
   - intros Hp'. rewrite Hb in Hbl. eapply C9; eauto. apply Hpe. assumption.
 Qed.
 
+Lemma inv_set_mem x s v : inv x s -> inv x (set_mem s v).
+Proof.
+  intros [[S0 I0 NL RL B ND X NDP HL HR P O D] HC]. split.
+  - constructor; simpl; try assumption. eapply invS_same; eauto.
+  - eapply invC_same; eauto.
+Qed.
+
 Lemma queue_tail_post quick x s k :
   inv x s -> s_out s = Some k -> s_delay s = false -> s_pos s = length (s_nodes s) ->
   queue_post quick x s (queue_tail s).
@@ -319,20 +328,20 @@ Proof.
     { rewrite <- (piece_bytes_le pl _ _ p Hle). exact Hsp. }
     destruct quick.
     + (* quick: release again and stop *)
-      cbn [out_val s_out set_nodes set_files set_pos]. rewrite Ho. rewrite (Hq eq_refl). cbn [Nat.eqb negb].
+      cbn [out_val s_out set_nodes set_files set_pos set_mem]. rewrite Ho. rewrite (Hq eq_refl). cbn [Nat.eqb negb].
       rewrite (chunk_release_ok _ p false b 0 0); [|simpl; apply nth_error_upd_eq; lia | discriminate].
-      cbn [Nat.eqb s_nodes set_nodes]. rewrite upd_upd. rewrite (upd_same (s_nodes s) p (mkN None 0 0) Hnode).
+      cbn [Nat.eqb s_nodes set_nodes set_mem]. rewrite upd_upd. rewrite (upd_same (s_nodes s) p (mkN None 0 0) Hnode).
       match goal with |- queue_post _ _ _ ?t => replace t with (set_files (set_pos s p) fs') by (apply st_ext; reflexivity) end.
       apply qp_intro; auto; try discriminate.
       right. split; [simpl; eauto | unfold meas; simpl; lia].
     + (* full: queue it for hashing and go on *)
       rewrite check_chunk_eq; [|simpl; apply nth_error_upd_eq; lia].
       match goal with |- queue_post _ _ _ (queue _ _ _ ?t) =>
-        replace t with (enq (set_files (set_pos s p) fs') p b)
+        replace t with (enq (set_mem (set_files (set_pos s p) fs') (S (s_mem s))) p b)
           by (apply st_ext; try reflexivity; unfold enq; simpl; rewrite upd_upd; reflexivity) end.
-      assert (HI2 : inv x (enq (set_files (set_pos s p) fs') p b)).
-      { eapply inv_enqueue; eauto; simpl; auto; lia. }
-      assert (Ho2 : s_out (enq (set_files (set_pos s p) fs') p b) = Some (S k)).
+      assert (HI2 : inv x (enq (set_mem (set_files (set_pos s p) fs') (S (s_mem s))) p b)).
+      { eapply inv_enqueue; eauto; try (apply inv_set_mem; assumption); simpl; auto; lia. }
+      assert (Ho2 : s_out (enq (set_mem (set_files (set_pos s p) fs') (S (s_mem s))) p b) = Some (S k)).
       { unfold enq, out_val. simpl. rewrite Ho. reflexivity. }
       destruct (IH false x _ (S k) HI2 Ho2) as (A & B1 & C & D1); simpl; auto; try discriminate.
       { intros i Hxi. specialize (Hx i Hxi). lia. }
